@@ -34,13 +34,15 @@ def detectors(monotone):
     return d
 
 
-def check(H, left, right, j1, j2, off):
+def check(H, left, right, j1, j2, off, only=None):
     m1, m2 = j1 / 8.0, j2 / 8.0
     P, c = elbow(left, right, m1, m2, 0.0, off)
     monotone = (m1 > 0 and m2 > 0) or (m1 < 0 and m2 < 0) or (m1 == 0) != (m2 == 0) and m1 * m2 == 0 and (m1 + m2 != 0)
     monotone = (m1 >= 0 and m2 >= 0) or (m1 <= 0 and m2 <= 0)
     inp = {"left": left, "right": right, "m1": m1, "m2": m2, "offset": off}
     for name, f in detectors(monotone):
+        if only is not None and not name.startswith(only):
+            continue
         H.case((tuple(left), tuple(right), j1, j2, off, name), sample=dict(inp, detector=name, corner=c))
         try:
             got = guarded(f, P.copy(), limit=30)
@@ -70,6 +72,24 @@ def run(H, tier, rng):
         check(H, left, right, j1, j2, off)
         if len(H.violations) >= 60:
             break
+    # corner sweep: the corner geometry (the two spacings next to the corner and the two slopes) decides the Menger detector; nearly
+    # parallel steep arms with wide spacing give the smallest corner curvature of the family (~6e-5), so this stratum is enumerated:
+    # quick = every ordered slope pair with |j1 - j2| <= 2 (j in -64..64), thorough = every ordered pair; all 16 corner spacings
+    allj = range(-64, 65)
+    sweep = [(a, b) for a in allj for b in allj if a != b and (tier != "quick" or abs(a - b) <= 2)]
+    for a, b in sweep:
+        for dl in (1, 2, 3, 4):
+            for dr in (1, 2, 3, 4):
+                check(H, [1, 2, dl], [dr, 3, 1], a, b, 0.0, only="menger")
+        if len(H.violations) >= 60:
+            break
+    # the same stratum for every other detector, sampled
+    near = [(a, b) for a, b in sweep if abs(a - b) <= 2]
+    for k in range(40 if tier == "quick" else 400):
+        a, b = near[rng.randrange(len(near))] if hasattr(rng, "randrange") else near[int(rng.random() * len(near))]
+        check(H, [1, 2, rng.choice([1, 2, 3, 4])], [rng.choice([1, 2, 3, 4]), 3, 1], a, b, rng.choice([0.0, 0.125]))
+        if len(H.violations) >= 60:
+            break
     check(H, [2, 3, 1], [3, 2, 1], -64, -16, 0.0)
     check(H, [1] * 12, [1, 1, 1], -16, -1, 100.0)
 
@@ -77,4 +97,6 @@ def run(H, tier, rng):
 if __name__ == "__main__":
     Harness("C03", "seeded random two-slope elbows: arms of 3..12 segments, spacings in {1,2,3,4} (all 64 patterns for 3-segment arms), ordered pairs "
             "of distinct slopes from a lattice of multiples of 1/8 in [-8,8], dyadic offsets {0, 1/8, 100, 4096}; every detector and option; "
-            "Kneedle(t=0) on monotone elbows; expected answer: the corner index, exactly", "arms <= 12 segments").main(run)
+            "Kneedle(t=0) on monotone elbows; plus the corner sweep for the Menger detector (every ordered slope pair j1/8, j2/8 with |j1-j2| <= 2 in "
+            "the quick tier, every ordered pair in the thorough tier, all 16 corner spacings) and a sample of that nearly-parallel stratum for all "
+            "detectors; expected answer: the corner index, exactly", "arms <= 12 segments").main(run)
